@@ -211,7 +211,7 @@ def as_dict_obligations(ctx: Ctx, I: Interp) -> None:
                   "as_dict takes the URL prefix from source_path_map(lib_prefix=, include_version=) with its own parameters", where,
                   f"source_path_map({ {k: short(v) for k, v in kw.items()} })", "as_dict does not forward lib_prefix / include_version to source_path_map")
         quotes = [e for e in l.effects if e.kind == "extcall" and _q(e) == "urllib.parse.quote"]
-        ctx.require(len(quotes) >= 2, "as_dict no longer percent-encodes the item paths with urllib.parse.quote")
+        # (a path on which an item path is not encoded at all is reported by the join obligation below)
         for e in quotes:
             n += 1
             extra = dict(e.extra or {})
@@ -228,8 +228,11 @@ def as_dict_obligations(ctx: Ctx, I: Interp) -> None:
         for e in joins:
             a0 = e.value[0] if e.value else None
             okj = _spm_item(a0, "href") is not None and len(e.value) == 2 and _op_call(e.value[1], "urllib.parse.quote") is not None
+            conds = [str(lbl) for a_, lbl in l.atoms if isinstance(a_, tuple) and a_[0] in ("extcall", "truthy", "eq", "in", "cmp")][:2]
             ctx.check(okj, "C12.P3", "URL = posixpath.join(source_path_map()['href'], quote(path))", where, f"posixpath.join({[short(x) for x in e.value]})",
-                      "item URLs are not the source href joined with the percent-encoded relative path")
+                      f"an item URL is built as posixpath.join({', '.join(short(x) for x in e.value)})" + (f" when {conds}" if conds else "") +
+                      ": not the source href joined with the percent-encoded relative path, so the URL does not decode to the name of the copied file",
+                      witness="script={'src': 'a%20b.js'}: the file 'a%20b.js' is copied, the URL must be 'a%2520b.js'")
         ctx.check(len(joins) >= 2, "C12.P3", "script and stylesheet URLs are both joined to the href", where, f"{len(joins)} joins", "not every item URL is prefixed with the dependency's href")
     ctx.min_count("as_dict quote sites", n, 2)
 
@@ -408,3 +411,6 @@ def check(ctx: Ctx) -> None:
     as_dict_obligations(ctx, I)
     source_path_map_table(ctx, I)
     save_html_obligations(ctx, I)
+    # the settings used for the URLs are the ones save_html copies with: every link of the call chain forwards them
+    from .c11 import forwarding_chain
+    forwarding_chain(ctx, I, "C12.P2")
